@@ -351,8 +351,15 @@ func zzC03cMetadataOrder() {
 	if vf.Choose("two.filters.same.node", 2) == 1 {
 		filters = append(filters, &message.DownstreamFilter{SourceNodeID: "node", DataFilters: []*message.DataFilter{{Name: "x", Type: "y"}}})
 	}
-	down, err := conn.OpenDownstream(ctx, filters)
+	// the context of the open call ends once the call has returned (a helper with `defer cancel()`):
+	// the stream must not depend on it
+	octx, ocancel := context.WithCancel(ctx)
+	down, err := conn.OpenDownstream(octx, filters)
 	vf.Assume(err == nil)
+	if vf.Choose("open.context.cancelled.afterwards", 2) == 1 {
+		ocancel()
+	}
+	defer ocancel()
 	vf.Settle()
 	var alias uint32
 	for _, m := range tr.msgs() {
@@ -635,6 +642,7 @@ func zzC01eEndToEnd() {
 	base := b.handler
 	batchAcks := vf.Choose("broker.acks.in.one.batch", 2) == 1
 	assignAliases := vf.Choose("broker.assigns.aliases", 2) == 1
+	rejectSecond := vf.Choose("broker.rejects.chunk.2", 2) == 1
 	var pending []*message.UpstreamChunkResult
 	nextAlias := uint32(100)
 	var closeReq *message.UpstreamCloseRequest
@@ -645,7 +653,12 @@ func zzC01eEndToEnd() {
 			if closeReq != nil {
 				chunksAfterClose++
 			}
-			res := &message.UpstreamChunkResult{SequenceNumber: r.StreamChunk.SequenceNumber, ResultCode: message.ResultCodeSucceeded, ResultString: "ok"}
+			// the broker's verdict on a chunk may be a failure code: it is reported to the hook all the same
+			code, str := message.ResultCodeSucceeded, "ok"
+			if rejectSecond && r.StreamChunk.SequenceNumber == 2 {
+				code, str = message.ResultCodeInvalidPayload, "rejected"
+			}
+			res := &message.UpstreamChunkResult{SequenceNumber: r.StreamChunk.SequenceNumber, ResultCode: code, ResultString: str}
 			aliases := map[uint32]*message.DataID{}
 			if assignAliases {
 				for _, id := range r.DataIDs {
@@ -680,9 +693,11 @@ func zzC01eEndToEnd() {
 	default:
 		policy = WithUpstreamFlushPolicyBufferSizeOnly(1)
 	}
-	up, err := conn.OpenUpstream(ctx, "session", policy, WithUpstreamQoS(message.QoSReliable),
+	octx, ocancel := context.WithCancel(ctx)
+	up, err := conn.OpenUpstream(octx, "session", policy, WithUpstreamQoS(message.QoSReliable),
 		WithUpstreamReceiveAckHooker(hooks), WithUpstreamSendDataPointsHooker(hooks), WithUpstreamCloseTimeout(time.Second))
 	vf.Assume(err == nil)
+	ocancel() // the open call's context ends after the call: the stream must not depend on it
 	vf.Settle()
 	// write history: 3 writes over 2 data ids, symbolic payload bytes, one explicit Flush in between
 	idA, idB := &message.DataID{Name: "a", Type: "t"}, &message.DataID{Name: "b", Type: "t"}
@@ -819,7 +834,11 @@ func zzC01eEndToEnd() {
 	seen := map[uint32]int{}
 	for _, r := range hooks.acked {
 		seen[r.SequenceNumber]++
-		vf.Assert("ack-hook-has-the-brokers-code", r.ResultCode == message.ResultCodeSucceeded && r.ResultString == "ok")
+		if rejectSecond && r.SequenceNumber == 2 {
+			vf.Assert("ack-hook-has-the-brokers-code", r.ResultCode == message.ResultCodeInvalidPayload && r.ResultString == "rejected")
+		} else {
+			vf.Assert("ack-hook-has-the-brokers-code", r.ResultCode == message.ResultCodeSucceeded && r.ResultString == "ok")
+		}
 	}
 	for i := 1; i <= n; i++ {
 		vf.Assert("each-result-reported-once", seen[uint32(i)] == 1)
@@ -839,9 +858,14 @@ func zzC04eDownstreamLife() {
 	conn := zzConnect(b)
 	tr := b.last()
 	ctx := context.Background()
-	down, err := conn.OpenDownstream(ctx, []*message.DownstreamFilter{{SourceNodeID: "node", DataFilters: []*message.DataFilter{{Name: "#", Type: "#"}}}},
+	octx, ocancel := context.WithCancel(ctx)
+	down, err := conn.OpenDownstream(octx, []*message.DownstreamFilter{{SourceNodeID: "node", DataFilters: []*message.DataFilter{{Name: "#", Type: "#"}}}},
 		WithDownstreamAckFlushInterval(50*time.Millisecond))
 	vf.Assume(err == nil)
+	if vf.Choose("open.context.cancelled.afterwards", 2) == 1 {
+		ocancel() // the open call's context ends after the call: the stream must not depend on it
+	}
+	defer ocancel()
 	vf.Settle()
 	var alias uint32
 	for _, m := range tr.msgs() {
@@ -992,9 +1016,15 @@ func zzC03ePreregistered() {
 
 type zzEvents struct {
 	disconnected, reconnected, upResumed, downResumed, upClosed, downClosed int
+	disconnectedTakes                                                        time.Duration // the application's handler is slow
 }
 
-func (e *zzEvents) OnDisconnected(*DisconnectedEvent)          { e.disconnected++ }
+func (e *zzEvents) OnDisconnected(*DisconnectedEvent) {
+	e.disconnected++
+	if e.disconnectedTakes > 0 {
+		time.Sleep(e.disconnectedTakes)
+	}
+}
 func (e *zzEvents) OnReconnected(*ReconnectedEvent)            { e.reconnected++ }
 func (e *zzEvents) OnUpstreamResumed(*UpstreamResumedEvent)    { e.upResumed++ }
 func (e *zzEvents) OnDownstreamResumed(*DownstreamResumedEvent) { e.downResumed++ }
@@ -1039,8 +1069,19 @@ func zzC05eOutage() {
 	vf.Assert("flush-before-outage", up.Flush(ctx) == nil)
 	vf.Settle()
 	vf.Assert("chunk-1-sent-unacknowledged", len(zzUpstreamChunksOf(tr1)) == 1)
-	// the transport dies (the broker never acknowledged chunk 1)
-	tr1.Close()
+	// the transport dies (the broker never acknowledged chunk 1): either both directions at once (the
+	// read loop notices), or only the write direction (the next request notices, the keepalive later)
+	halfDead := vf.Choose("only.writes.fail", 2) == 1
+	if vf.Choose("slow.disconnected.handler", 2) == 1 {
+		ev.disconnectedTakes = 300 * time.Millisecond // the connection's run loop is held up, the stream watchers are not
+	}
+	if halfDead {
+		tr1.mu.Lock()
+		tr1.writesFail = true
+		tr1.mu.Unlock()
+	} else {
+		tr1.Close()
+	}
 	vf.Settle()
 	// a request issued during the outage
 	var merr error
@@ -1107,7 +1148,11 @@ func zzC05fResumeRefused() {
 	serve := b.handler
 	upOutcome := vf.Choose("upstream.resume", 3)     // 0 accepted, 1 refused, 2 connection cut during the exchange
 	downOutcome := vf.Choose("downstream.resume", 2) // 0 accepted, 1 refused
-	vf.Assume(upOutcome != 0 || downOutcome != 0)
+	// the broker may first answer "conflict" (it has not noticed yet that the old connection is gone):
+	// that is a request to try again, not a refusal
+	conflictsFirst := vf.Choose("conflict.answers.first", 2)
+	vf.Assume(upOutcome != 0 || downOutcome != 0 || conflictsFirst != 0)
+	upConflicts, downConflicts := conflictsFirst, conflictsFirst
 	// a broker that no longer knows a stream also refuses the close request the client then sends
 	closeRefused := vf.Choose("close.request.refused", 2) == 1
 	cuts := 0
@@ -1124,6 +1169,11 @@ func zzC05fResumeRefused() {
 				return true
 			}
 		case *message.UpstreamResumeRequest:
+			if upConflicts > 0 {
+				upConflicts--
+				t.in <- zzEncode(&message.UpstreamResumeResponse{RequestID: r.RequestID, ResultCode: message.ResultCodeResumeRequestConflict})
+				return true
+			}
 			if upOutcome == 1 {
 				t.in <- zzEncode(&message.UpstreamResumeResponse{RequestID: r.RequestID, ResultCode: message.ResultCodeStreamNotFound, ResultString: "gone"})
 				return true
@@ -1134,6 +1184,11 @@ func zzC05fResumeRefused() {
 				return true
 			}
 		case *message.DownstreamResumeRequest:
+			if downConflicts > 0 {
+				downConflicts--
+				t.in <- zzEncode(&message.DownstreamResumeResponse{RequestID: r.RequestID, ResultCode: message.ResultCodeResumeRequestConflict})
+				return true
+			}
 			if downOutcome == 1 {
 				t.in <- zzEncode(&message.DownstreamResumeResponse{RequestID: r.RequestID, ResultCode: message.ResultCodeStreamNotFound, ResultString: "gone"})
 				return true
@@ -2143,14 +2198,22 @@ func zzC02fOutagePositions() {
 	vf.Deviations(zzDeviations)
 	ctx := context.Background()
 	tr1 := b.last()
-	up, err := conn.OpenUpstream(ctx, "session", WithUpstreamFlushPolicyNone(), WithUpstreamQoS(message.QoSReliable), WithUpstreamResumedEventHandler(ev), WithUpstreamClosedEventHandler(ev), WithUpstreamCloseTimeout(time.Second))
+	k := vf.Choose("received.before.the.outage", 4)
+	j := vf.Choose("acked.before.the.outage", 4)
+	vf.Assume(j <= k)
+	// with an ack timeout configured the library gives up on a chunk whose ack is overdue (by
+	// design), so that variant is run only when nothing is overdue at the outage; a chunk that could
+	// not even be sent (written during the outage) is not "overdue": it must be kept and resent
+	opts := []UpstreamOption{WithUpstreamFlushPolicyNone(), WithUpstreamQoS(message.QoSReliable), WithUpstreamResumedEventHandler(ev), WithUpstreamClosedEventHandler(ev), WithUpstreamCloseTimeout(time.Second)}
+	if vf.Choose("ack.timeout.configured", 2) == 1 {
+		vf.Assume(j == k)
+		opts = append(opts, WithUpstreamAckTimeout(200*time.Millisecond))
+	}
+	up, err := conn.OpenUpstream(ctx, "session", opts...)
 	vf.Assume(err == nil)
 	vf.Settle()
 	id := &message.DataID{Name: "n", Type: "t"}
 	pays := []byte{vf.U8("p1"), vf.U8("p2"), vf.U8("p3")}
-	k := vf.Choose("received.before.the.outage", 4)
-	j := vf.Choose("acked.before.the.outage", 4)
-	vf.Assume(j <= k)
 	written := 0
 	write := func() {
 		vf.Assert("write-accepted", up.WriteDataPoints(ctx, id, &message.DataPoint{ElapsedTime: time.Duration(written + 1), Payload: []byte{pays[written]}}) == nil && up.Flush(ctx) == nil)
@@ -2716,3 +2779,258 @@ func zzC08hCloseDuringSilentHandshake() {
 	vf.Assert("no-goroutine-left", vf.Leaked() == "")
 	vf.Reach("end")
 }
+
+// C07.f: streams opened with the default options (they all start from the same default configuration)
+// keep their own flush timing: closing, or resuming, one of them never stops or delays the interval
+// flushes of the others.
+func zzC07fDefaultPolicyStreamsIndependent() {
+	b := zzNewBroker()
+	zzServeStreams(b)
+	serve := b.handler
+	opened := 0
+	b.handler = func(t *zzTr, m message.Message) bool {
+		if r, ok := m.(*message.UpstreamOpenRequest); ok {
+			opened++
+			id := zzStreamID1
+			if opened == 2 {
+				id = zzStreamID2
+			}
+			t.in <- zzEncode(&message.UpstreamOpenResponse{RequestID: r.RequestID, AssignedStreamID: id, AssignedStreamIDAlias: uint32(10 * opened), ResultCode: message.ResultCodeSucceeded})
+			return true
+		}
+		return serve(t, m)
+	}
+	conn := zzConnect(b)
+	tr := b.last()
+	ctx := context.Background()
+	a, err := conn.OpenUpstream(ctx, "first")
+	vf.Assume(err == nil)
+	bb, err := conn.OpenUpstream(ctx, "second")
+	vf.Assume(err == nil)
+	vf.Settle()
+	id := &message.DataID{Name: "n", Type: "t"}
+	chunksOf := func(alias uint32) int {
+		n := 0
+		for _, c := range zzUpstreamChunksOf(tr) {
+			if c.StreamIDAlias == alias {
+				n++
+			}
+		}
+		return n
+	}
+	const iv = 100 * time.Millisecond // the default flush interval
+	vf.Assert("write-accepted", a.WriteDataPoints(ctx, id, &message.DataPoint{ElapsedTime: 1}) == nil && bb.WriteDataPoints(ctx, id, &message.DataPoint{ElapsedTime: 1}) == nil)
+	vf.Advance(iv)
+	vf.Advance(iv)
+	vf.Assert("both-streams-flush-on-their-interval", chunksOf(10) == 1 && chunksOf(20) == 1)
+	// stream A goes away (or is merely written to): stream B's timing is its own
+	switch vf.Choose("event.on.the.other.stream", 2) {
+	case 0:
+		// (its chunk is never acknowledged: Close gives up at the caller's deadline)
+		cctx, cancel := context.WithTimeout(ctx, time.Second)
+		closed := false
+		go func() { a.Close(cctx); closed = true }()
+		vf.Settle()
+		vf.Advance(time.Second + 100*time.Millisecond)
+		cancel()
+		vf.Assume(closed)
+	case 1:
+		a.WriteDataPoints(ctx, id, &message.DataPoint{ElapsedTime: 2})
+	}
+	vf.Settle()
+	before := chunksOf(20)
+	vf.Assert("write-accepted", bb.WriteDataPoints(ctx, id, &message.DataPoint{ElapsedTime: 2}) == nil)
+	vf.Advance(iv)
+	vf.Advance(iv)
+	vf.Assert("the-other-stream-still-flushes-within-its-interval", chunksOf(20) == before+1)
+	conn.Close(ctx)
+	vf.Reach("end")
+}
+
+// C08.i: calls that wait for the connection to come back (issued during an outage, with a context
+// that has no deadline) are released by Conn.Close: they return the connection-closed error instead
+// of waiting for a reconnect that will never happen.
+func zzC08iCloseReleasesWaitingCalls() {
+	b := zzNewBroker()
+	zzServeStreams(b)
+	b.maxDials = 1000
+	conf := b.config()
+	n := 0
+	randomString = func() string { n++; return "call-" + string(rune('a'+n)) }
+	conn, err := ConnectWithConfig(conf)
+	vf.Assume(err == nil)
+	vf.Settle()
+	vf.Deviations(zzDeviations)
+	ctx := context.Background()
+	dialErr := fmt.Errorf("network unreachable")
+	b.dialErrs = append(b.dialErrs, nil)
+	for i := 0; i < 64; i++ {
+		b.dialErrs = append(b.dialErrs, dialErr)
+	}
+	b.last().Close()
+	vf.Settle()
+	vf.Advance(11 * time.Second)
+	vf.Advance(2 * time.Second)
+	vf.Assume(b.dials >= 2 && !conn.state.Is(connStatusConnected))
+	var cerr error
+	done := false
+	op := vf.Choose("waiting.call", 5)
+	go func() {
+		switch op {
+		case 0:
+			cerr = conn.SendMetadata(ctx, &message.BaseTime{SessionID: "s", Name: "n"})
+		case 1:
+			_, cerr = conn.OpenUpstream(ctx, "s2")
+		case 2:
+			_, cerr = conn.OpenDownstream(ctx, []*message.DownstreamFilter{{SourceNodeID: "n"}})
+		case 3:
+			_, cerr = conn.SendCall(ctx, &UpstreamCall{DestinationNodeID: "d", Name: "n", Type: "t"})
+		case 4:
+			_, cerr = conn.SendCallAndWaitReplayCall(ctx, &UpstreamCall{DestinationNodeID: "d", Name: "n", Type: "t"})
+		}
+		done = true
+	}()
+	vf.Settle()
+	vf.Assert("call-waits-for-the-connection", !done)
+	cctx, cancel := context.WithTimeout(ctx, 5*time.Second)
+	closed := false
+	go func() { conn.Close(cctx); closed = true }()
+	vf.Settle()
+	for i := 0; i < 8 && !(closed && done); i++ {
+		vf.Advance(time.Second)
+	}
+	cancel()
+	vf.Assert("close-returns", closed)
+	vf.Assert("waiting-call-released-with-the-closed-error", done && zzIsClosedErr(cerr))
+	vf.Advance(30 * time.Second)
+	vf.Assert("no-goroutine-left", vf.Leaked() == "")
+	vf.Reach("end")
+}
+
+// C10.h: the application closes a stream while that stream's resume request is still unanswered
+// (half-finished resume), the broker then answers both requests - resume accepted or refused,
+// before or after the close response: the stream's Close returns, its closed notification fires
+// exactly once, calls on the stream fail with the stream-closed
+// error afterwards, and after Conn.Close no goroutine is left.
+func zzC10hCloseDuringResume() {
+	b := zzNewBroker()
+	zzServeStreams(b)
+	serve := b.handler
+	which := vf.Choose("stream", 2)                // 0 upstream, 1 downstream
+	resumeRefused := vf.Choose("resume.refused", 2) == 1
+	resumeFirst := vf.Choose("resume.answered.first", 2) == 1
+	lifo := vf.Choose("close.requests.answered.newest.first", 2) == 1
+	var heldResume func()
+	var heldCloses []func() // every close request is held; the scenario decides when each is answered
+	b.handler = func(t *zzTr, m message.Message) bool {
+		rc := message.ResultCodeSucceeded
+		if resumeRefused {
+			rc = message.ResultCodeStreamNotFound
+		}
+		switch r := m.(type) {
+		case *message.UpstreamResumeRequest:
+			heldResume = func() { t.in <- zzEncode(&message.UpstreamResumeResponse{RequestID: r.RequestID, AssignedStreamIDAlias: 9, ResultCode: rc}) }
+			return true
+		case *message.DownstreamResumeRequest:
+			heldResume = func() { t.in <- zzEncode(&message.DownstreamResumeResponse{RequestID: r.RequestID, ResultCode: rc}) }
+			return true
+		case *message.UpstreamCloseRequest:
+			heldCloses = append(heldCloses, func() { t.in <- zzEncode(&message.UpstreamCloseResponse{RequestID: r.RequestID, ResultCode: message.ResultCodeSucceeded}) })
+			return true
+		case *message.DownstreamCloseRequest:
+			heldCloses = append(heldCloses, func() { t.in <- zzEncode(&message.DownstreamCloseResponse{RequestID: r.RequestID, ResultCode: message.ResultCodeSucceeded}) })
+			return true
+		}
+		return serve(t, m)
+	}
+	ev := &zzEvents{}
+	conn := zzConnect(b)
+	ctx := context.Background()
+	tr1 := b.last()
+	var up *Upstream
+	var down *Downstream
+	var err error
+	if which == 0 {
+		up, err = conn.OpenUpstream(ctx, "session", WithUpstreamFlushPolicyNone(), WithUpstreamResumedEventHandler(ev), WithUpstreamClosedEventHandler(ev))
+	} else {
+		down, err = conn.OpenDownstream(ctx, []*message.DownstreamFilter{{SourceNodeID: "node"}}, WithDownstreamResumedEventHandler(ev), WithDownstreamClosedEventHandler(ev))
+	}
+	vf.Assume(err == nil)
+	vf.Settle()
+	tr1.Close()
+	vf.Settle()
+	for i := 0; i < 3 && heldResume == nil; i++ { // keepalive notices; redial; the resume request travels
+		vf.Advance(11 * time.Second)
+		vf.Settle()
+	}
+	vf.Assume(heldResume != nil)
+	vf.Assert("redialled-once", b.dials == 2)
+	// the application closes the stream while the resume is unanswered
+	closed := false
+	var cerr error
+	go func() {
+		if which == 0 {
+			cerr = up.Close(ctx)
+		} else {
+			cerr = down.Close(ctx)
+		}
+		closed = true
+	}()
+	vf.Settle()
+	answerResume := func() {
+		heldResume()
+		vf.Settle()
+	}
+	// answers the close requests held so far (oldest or newest first), and those that arrive meanwhile
+	answerCloses := func() {
+		for round := 0; round < 4 && len(heldCloses) > 0; round++ {
+			var f func()
+			if lifo {
+				f, heldCloses = heldCloses[len(heldCloses)-1], heldCloses[:len(heldCloses)-1]
+			} else {
+				f, heldCloses = heldCloses[0], heldCloses[1:]
+			}
+			f()
+			vf.Settle()
+		}
+	}
+	if resumeFirst {
+		answerResume()
+		answerCloses()
+	} else {
+		answerCloses()
+		answerResume()
+		answerCloses()
+	}
+	for i := 0; i < 2 && !closed; i++ {
+		vf.Advance(11 * time.Second)
+		vf.Settle()
+		answerCloses()
+	}
+	_ = cerr
+	vf.Assert("close-returns", closed)
+	n := ev.upClosed + ev.downClosed
+	vf.Assert("closed-notification-at-most-once", n <= 1)
+	vf.Assert("closed-notification-fires", !closed || n == 1)
+	if closed {
+		if which == 0 {
+			werr := up.WriteDataPoints(ctx, &message.DataID{Name: "n", Type: "t"}, &message.DataPoint{ElapsedTime: 1})
+			vf.Assert("write-after-close-fails-stream-closed", werr != nil && errors.Is(werr, errors.ErrStreamClosed))
+		} else {
+			rctx, cancel := context.WithTimeout(ctx, 200*time.Millisecond)
+			_, rerr := down.ReadDataPoints(rctx)
+			cancel()
+			vf.Assert("read-after-close-fails-stream-closed", rerr != nil && errors.Is(rerr, errors.ErrStreamClosed))
+		}
+	}
+	conn.Close(ctx)
+	vf.Settle()
+	for _, t := range b.trs {
+		t.Close()
+	}
+	vf.Settle()
+	vf.Assert("no-goroutine-left", vf.Leaked() == "")
+	vf.Assert("closed-notification-still-at-most-once", ev.upClosed+ev.downClosed <= 1)
+	vf.Reach("end")
+}
+func zzC10hCloseDuringResumeDev1() { zzDeviations = 1; zzC10hCloseDuringResume() }
